@@ -286,6 +286,36 @@ fn main() {
         println!("{}", restart::env_child(args.get(2).map(|s| &s[..]).unwrap_or("stack"), input));
         return;
     }
+    if args[1] == "c15-fingerprint" {
+        // length and digest of a few large in-memory builds with the shipped
+        // cache geometry (large enough for cache rows to overflow); `check`
+        // compares what the two build profiles of this program print
+        let seed: u64 = args.get(2).and_then(|s| s.parse().ok()).unwrap_or(1);
+        for (n, valued) in [(300_000u64, false), (300_000, true), (60_000, true), (1_000, false)] {
+            let mut key = Vec::new();
+            let mut b = fst::raw::Builder::memory();
+            let mut sb = fst::SetBuilder::memory();
+            let mut mb = fst::MapBuilder::memory();
+            for j in 0..n {
+                let val = multi::long_key(seed, j, &mut key);
+                if valued {
+                    b.insert(&key, val).expect("harness: fingerprint build");
+                    mb.insert(&key, val).expect("harness: fingerprint build");
+                } else {
+                    b.add(&key).expect("harness: fingerprint build");
+                    sb.insert(&key).expect("harness: fingerprint build");
+                }
+            }
+            let raw = b.into_inner().expect("harness: fingerprint build");
+            let other = if valued { mb.into_inner() } else { sb.into_inner() }.expect("harness: fingerprint build");
+            for (name, bytes) in [("raw", &raw), (if valued { "map" } else { "set" }, &other)] {
+                let mut d = rng::Digest::new();
+                d.bytes(bytes);
+                println!("keys={} valued={} builder={} bytes={} digest={:016x}", n, valued, name, bytes.len(), d.finish());
+            }
+        }
+        return;
+    }
     if let Err(e) = model::self_test() {
         exec::harness_error(e);
     }
